@@ -466,5 +466,13 @@ def parallel_map(fn, items: Iterable, procs: int = NCPU, chunksize: int = 1) -> 
     items = list(items)
     if procs <= 1 or len(items) <= 1:
         return [fn(x) for x in items]
-    with mp.get_context("fork").Pool(min(procs, len(items))) as pool:
-        return pool.map(fn, items, chunksize)
+    from harness import cov
+
+    pool = mp.get_context("fork").Pool(min(procs, len(items)), initializer=cov.worker_init)
+    try:
+        res = pool.map(fn, items, chunksize)
+        pool.close()
+        pool.join()
+        return res
+    finally:
+        pool.terminate()
